@@ -83,6 +83,7 @@ def _ioerror(code):
 #   ["errframe"]         the chip's syntax error frame instead of the response
 #   ["timeout"]          ACK, then nothing: read raises IOError(ETIMEDOUT)
 #   ["noack"]            nothing at all
+#   ["skipack"]          the response without the preceding ACK
 #   ["ioerr", errno, where]   where: "write" | "ack" | "rsp"
 #   ["trunc", k]         response cut to its first k bytes (1 <= k < len)
 #   ["extend", bytes]    response followed by extra bytes
@@ -109,6 +110,7 @@ class LinkBase(object):
         self.script = {}
         self.armed = False
         self.cmds = []
+        self.rsps = []
         self.wlog = []
         self.closed = False
         self.tty = types.SimpleNamespace(write=lambda data: None)
@@ -116,6 +118,7 @@ class LinkBase(object):
     def arm(self):
         self.armed = True
         self.cmds = []
+        self.rsps = []
         self.queue[:] = []
 
     def close(self):
@@ -148,6 +151,9 @@ class LinkBase(object):
         q = self.queue
         kind = fault[0]
         if kind == "noack":
+            return
+        if kind == "skipack":
+            q.append(rsp)
             return
         if kind == "ioerr" and fault[2] == "ack":
             q.append(_ioerror(fault[1]))
@@ -314,6 +320,8 @@ class Pn53xLink(LinkBase):
             self.queue.append(ACK)
             return
         rsp = ref.build_response(code, payload)
+        if self.armed:
+            self.rsps.append(rsp)
         if fault is None:
             self.queue += [ACK, rsp]
             return
@@ -351,6 +359,8 @@ class Acr122Link(LinkBase):
                 raise _ioerror(fault[1])
             payload = self.chip.respond(code, arg)
             rsp = ref.acr_build_response(code, payload or b"")
+            if self.armed:
+                self.rsps.append(rsp)
             if fault is None:
                 self.queue.append(rsp)
                 return
@@ -424,6 +434,8 @@ class Rcs380Link(LinkBase):
             raise _ioerror(fault[1])
         payload = self.chip.respond(code, arg)
         rsp = ref.p100_build_response(code, payload)
+        if self.armed:
+            self.rsps.append(rsp)
         if fault is None:
             self.queue += [ACK, rsp]
             return
